@@ -33,15 +33,7 @@ func (c *Ctx) assertRoots() []*ssa.Function {
 	}
 	callers := map[*ssa.Function][]*ssa.Function{}
 	for _, g := range all {
-		for _, b := range g.Blocks {
-			for _, in := range b.Instrs {
-				if ci, ok := in.(ssa.CallInstruction); ok {
-					if sc := ci.Common().StaticCallee(); sc != nil {
-						callers[sc] = append(callers[sc], g)
-					}
-				}
-			}
-		}
+		callers[g] = c.callersIncludingValueUses(g)
 	}
 	roots := map[*ssa.Function]bool{}
 	var climb func(f *ssa.Function, depth int)
